@@ -55,6 +55,8 @@ def check(tier, seed):
                 # edit each field (quick: a sample of fields)
                 editable = [(n, t) for n, t in lay if t[0] != 'P']
                 pick = editable if tier == 'thorough' or len(editable) <= 6 else rng.sample(editable, 6)
+                if e['kind'] == 'counted' and (e['count'], 'U1') not in pick:
+                    pick = pick + [(e['count'], 'U1')]          # the count field itself is a field like any other
                 for fn, ft in pick:
                     v = F.in_range_value(rng, ft)
                     impl2 = C.guarded(F.impl_decsetenc, cls, pay, fn, v, len(cases) % 3)
